@@ -2441,3 +2441,167 @@ def _odict(C):
 def _rng(C):
     C.I.emit("nondeterminism", C.fr, C.node, name=C.name)
     return top_av(False, "nondeterministic", C.I.atoms)
+
+
+# ----------------------------------------------------------------------------- further rows (not used by the pinned tree;
+# they keep a refactoring or a seeded change from becoming merely "unmodelled")
+@lib("numpy.roll", doc="circular shift: a permutation of the entries (linear, order of entries changed)")
+def _roll(C):
+    v = C.num(0)
+    sh = C.arg(1, "shift")
+    alg = {at: alg_weaken(v.a(at), _sel_class(as_num(sh).a(at)) if sh is not None else CONST) for at in v.atoms() | (as_num(sh).atoms() if sh is not None else set())}
+    return AV(kind=K_ARRAY, dtype=v.dtype, shape=v.shape, alg=alg, sign=v.sign, origin=C.fresh(), tags=tags_of(v, sh) | frozenset(["roll"]),
+              indef=indef_of(v, sh))
+
+
+@lib("numpy.tile", "numpy.repeat", doc="repetition of entries: linear, length changes")
+def _tile(C):
+    v = C.num(0)
+    return AV(kind=K_ARRAY, dtype=v.dtype, shape=None if v.shape is None else tuple(None for _ in v.shape), alg=dict(v.alg), sign=v.sign,
+              origin=C.fresh(), tags=tags_of(*[a for a in C.args]), indef=v.indef)
+
+
+@lib("numpy.nan_to_num", doc="replaces non-finite entries by constants")
+def _nan_to_num(C):
+    v = C.num(0)
+    return elemwise(C, v, lambda a: a if a[0] in ("const", "zero") else alg_lub(a, CONST), sign=v.sign, keep_f0=True)
+
+
+@lib("numpy.gradient", "numpy.convolve", "numpy.correlate", doc="linear in its (first) argument")
+def _gradient(C):
+    v = C.num(0)
+    w = C.num(1) if len(C.args) > 1 else None
+    alg = dict(v.alg) if w is None else alg2(v, w, alg_mul)
+    shape = v.shape if C.name.endswith("gradient") else None
+    return AV(kind=K_ARRAY, dtype="real" if v.dtype in ("int", "bool") else v.dtype, shape=shape, alg=alg, origin=C.fresh(),
+              tags=tags_of(v, w), indef=indef_of(v, w))
+
+
+@lib("numpy.percentile", "numpy.quantile", "numpy.nanpercentile", "numpy.nanmedian", doc="order statistic")
+def _percentile(C):
+    return _reduction(alg_maxred, lambda v: v.sign, tag="red:quantile", order=True)(Ctx(C.I, C.fr, C.name, C.args[:1], {k: v for k, v in C.kwargs.items() if k == "axis"}, C.node))
+
+
+@lib("numpy.linalg.norm", doc="norm: degree preserved, even, non-negative")
+def _norm(C):
+    v = C.num(0)
+    ax, known = axis_of(C, v, 2)
+    shape = reduce_shape(v, ax, known)
+    return AV(kind=K_SCALAR if shape == () else K_ARRAY, dtype="real", shape=shape, alg=alg1(v, alg_abs), sign=S_NONNEG,
+              origin=frozenset(["lit"]) if shape == () else C.fresh(), tags=v.tags | frozenset(["abs", "red:norm"]), indef=v.indef)
+
+
+@lib("numpy.hypot", doc="sqrt(a^2 + b^2)")
+def _hypot(C):
+    a, b = C.num(0), C.num(1)
+    alg = {at: alg_abs(alg_lub(a.a(at), b.a(at))) for at in a.atoms() | b.atoms()}
+    return AV(kind=result_kind(bshape(a.shape, b.shape), a, b), dtype="real", shape=bshape(a.shape, b.shape), alg=alg, sign=S_NONNEG,
+              origin=C.fresh(), tags=tags_of(a, b) | frozenset(["abs"]), indef=indef_of(a, b))
+
+
+@lib("numpy.arctan2", "numpy.angle", doc="angle: invariant under positive scaling")
+def _arctan2(C):
+    vs = [as_num(a) for a in C.args]
+    alg = {}
+    for at in set().union(*[v.atoms() for v in vs]):
+        cs = [v.a(at) for v in vs]
+        if all(c[0] in ("const", "zero") for c in cs):
+            continue
+        hs = [hom_form(c) for c in cs if c[0] != "zero"]
+        alg[at] = HOM(0, "none") if (all(h is not None for h in hs) and len({h[0] for h in hs}) == 1) else TOPD
+    sh = vs[0].shape
+    for v in vs[1:]:
+        sh = bshape(sh, v.shape)
+    return AV(kind=result_kind(sh, *vs), dtype="real", shape=sh, alg=alg, origin=C.fresh(), tags=tags_of(*vs), indef=indef_of(*vs))
+
+
+@lib("numpy.isin", "numpy.in1d", "numpy.logical_and", "numpy.logical_or", "numpy.logical_not", "numpy.logical_xor",
+     "numpy.greater", "numpy.less", "numpy.equal", "numpy.not_equal", "numpy.greater_equal", "numpy.less_equal",
+     doc="boolean element-wise results")
+def _logical(C):
+    vs = [as_num(a) for a in C.args]
+    short = C.name.split(".")[-1]
+    cmpop = {"greater": ast.Gt(), "less": ast.Lt(), "equal": ast.Eq(), "not_equal": ast.NotEq(), "greater_equal": ast.GtE(),
+             "less_equal": ast.LtE()}.get(short)
+    if cmpop is not None and len(vs) == 2:
+        return compare(C.I, C.fr, cmpop, C.args[0], C.args[1], C.node)
+    from .interp import alg_lub_pc
+    alg = {}
+    for v in vs:
+        for at in v.atoms():
+            alg[at] = alg_lub_pc(alg.get(at, CONST), v.a(at) if short.startswith("logical") else alg_argorder(v.a(at)))
+    sh = vs[0].shape if vs else None
+    for v in vs[1:]:
+        sh = bshape(sh, v.shape) if short.startswith("logical") else sh
+    return AV(kind=K_ARRAY if sh != () else K_BOOL, dtype="bool", shape=sh, alg=alg, sign=S_NONNEG, origin=C.fresh(), tags=tags_of(*vs),
+              indef=indef_of(*vs))
+
+
+@lib("numpy.float64", "numpy.float32", "numpy.float_", "numpy.double", doc="cast to float")
+def _npfloat(C):
+    return call_builtin(C.I, C.fr, "float", C.args, C.kwargs, C.node) if (C.args and as_num(C.args[0]).shape == ()) else \
+        _array(Ctx(C.I, C.fr, "numpy.array", C.args, {"dtype": const_av("float")}, C.node))
+
+
+@lib("numpy.int64", "numpy.int32", "numpy.int_", "numpy.intp", doc="cast to int (toward zero)")
+def _npint(C):
+    return call_builtin(C.I, C.fr, "int", C.args, C.kwargs, C.node) if (C.args and as_num(C.args[0]).shape == ()) else \
+        _array(Ctx(C.I, C.fr, "numpy.array", C.args, {"dtype": const_av("int")}, C.node))
+
+
+@lib("numpy.ndim", "numpy.size", "numpy.shape", doc="shape queries")
+def _ndim(C):
+    v = C.num(0)
+    short = C.name.split(".")[-1]
+    if short == "shape":
+        return nd_attr(C.I, C.fr, v, "shape", C.node)
+    if short == "size":
+        return nd_attr(C.I, C.fr, v, "size", C.node)
+    c = len(v.shape) if v.shape is not None else _NOCONST
+    return AV(kind=K_SCALAR, dtype="int", shape=(), const=c, sym=LinExpr(c) if c is not _NOCONST else None, sign=S_NONNEG,
+              alg={at: alg_shape(v.a(at)) for at in v.atoms()})
+
+
+@lib("numpy.isscalar")
+def _isscalar(C):
+    v = C.arg(0)
+    if v.kind in (K_SCALAR, K_BOOL, K_STR) and (v.note == "pyscalar" or v.has_const()):
+        return const_av(True)
+    if v.kind in (K_ARRAY, K_LIST, K_TUPLE, K_NONE, K_OBJ):
+        return const_av(False)
+    return AV(kind=K_BOOL, dtype="bool", shape=())
+
+
+@lib("numpy.cumprod", doc="running product: no homogeneity")
+def _cumprod(C):
+    v = C.num(0)
+    return elemwise(C, v, lambda a: a if a[0] in ("const", "zero") else TOPD, sign=v.sign if is_nonneg(v.sign) else S_ANY)
+
+
+@lib("numpy.fft.fftshift", "numpy.fft.ifftshift", doc="permutation of bins")
+def _fftshift(C):
+    v = C.num(0)
+    return v.replace(origin=C.fresh(), mono=frozenset(), f0=False, const=_NOCONST, tags=v.tags | frozenset(["fftshift"]))
+
+
+@lib("numpy.select", "numpy.piecewise", "numpy.choose")
+def _select(C):
+    vs = [as_num(a) for a in C.args]
+    return AV(kind=K_ARRAY, shape=None, alg={at: TOPD for v in vs for at in v.atoms()}, origin=C.fresh(), tags=tags_of(*vs), indef=indef_of(*vs))
+
+
+@lib("numpy.round_")
+def _round_(C):
+    return LIB["numpy.round"](C)
+
+
+@lib("scipy.integrate.cumulative_simpson", doc="cumulative Simpson rule: linear, like cumulative_trapezoid but not the trapezoid rule")
+def _cumsimpson(C):
+    r = _cumtrapz(C)
+    return r.replace(tags=(r.tags - frozenset(["quad:trapezoid"])) | frozenset(["quad:simpson"]))
+
+
+@lib("numpy.meshgrid", "numpy.eye", "numpy.identity", "numpy.diag", "numpy.triu_indices", "numpy.tril_indices", "numpy.indices")
+def _structural(C):
+    vs = [as_num(a) for a in C.args]
+    return AV(kind=K_ARRAY, shape=None, alg=alg_lub_many(vs) if vs else {}, origin=C.fresh(), tags=tags_of(*vs), indef=indef_of(*vs))
